@@ -1,6 +1,7 @@
 import FitModel.Items
 import FitModel.Gen.Profile
 import FitProofs.Framing
+import FitProofs.UnkCounts
 /-!
   C16 — decode options only add information; unknown-item counts are exact.
 
@@ -235,5 +236,59 @@ theorem byte_parser_is_record_machine (P : Profile) (limit : Nat) (cont : DecSt 
       ∃ e, (runSpecD limit (decodeFileData P limit (fuel + its.length) st cont) n s).1 = .inl e ∧
         e.err = (exitOf o).err :=
   run_items P limit cont its fuel st n s tail hfit hs hl hn
+
+
+theorem lookup_nil {κ} [BEq κ] (k : κ) : lookup k ([] : List (κ × Nat)) = 0 := rfl
+
+/-- **The counts are exact, for whole files.** Lay out any list of items as a FIT file (any of the
+    three header layouts) that `Decode` accepts. Then, for every message number `n`, the
+    unknown-message counter holds the number of data records of the stream whose definition — the
+    latest one for their local type — names `n` and `n` is not in the profile (`unkMAll`); and for
+    every pair (message, field number), the unknown-field counter holds the number of records of
+    that known message that carried that unlisted field number (`unkFAll`: one per field read).
+    `finalize` publishes exactly these entries, sorted (`unknown_lists_sorted`), when the option is
+    set (`lists_only_when_asked`). -/
+theorem unknown_counts_exact (P : Profile) (o : Opts) (k : HdrKind) (g : Globals) (proto profile : Nat)
+    (d0 : DefMsg) (b0 : Bool) (fs dev : List Bytes) (rest : List Item) (tail : Bytes) (stop : Stop) (st' : DecSt)
+    (hp : proto < 256) (hp2 : proto / 16 ≤ protoMajorMax)
+    (hwf0 : DefnWF d0 b0) (hg : d0.global = mnFileId) (hkn : P.known mnFileId = true)
+    (hlen : (serialize (.defn d0 b0 :: .data d0.localT fs dev :: rest)).length < 4294967296)
+    (hfit : ItemsFitD P (List.replicate 16 none) (.defn d0 b0 :: .data d0.localT fs dev :: rest))
+    (hrun : runItems P (afterHeader k g proto profile (serialize (.defn d0 b0 :: .data d0.localT fs dev :: rest)).length).hdr g
+      (.defn d0 b0 :: .data d0.localT fs dev :: rest)
+      (afterHeader k g proto profile (serialize (.defn d0 b0 :: .data d0.localT fs dev :: rest)).length).crc = .ok st') :
+    let out := (decodeSpec P o .full g
+      (frameBytesK k proto profile (serialize (.defn d0 b0 :: .data d0.localT fs dev :: rest)) ++ tail) stop).1
+    (∀ n, lookup n out.st.unkM =
+      (unkMAll P (List.replicate 16 none) (.defn d0 b0 :: .data d0.localT fs dev :: rest)).count n) ∧
+    (∀ key, lookup key out.st.unkF =
+      (unkFAll P (List.replicate 16 none) (.defn d0 b0 :: .data d0.localT fs dev :: rest)).count key) := by
+  intro out
+  have e := decode_frame_ok P o k g proto profile d0 b0 fs dev rest tail stop st' hp hp2 hwf0 hg hkn hlen hfit hrun
+  obtain ⟨hm, hf⟩ := runItems_unk P _ g _ _ st' hrun
+  have hfin : ∀ x : Outcome, (finalize o x).st.unkM = x.st.unkM ∧ (finalize o x).st.unkF = x.st.unkF := by
+    intro x; unfold finalize; split <;> exact ⟨rfl, rfl⟩
+  have e1 : out.st.unkM = st'.unkM := by
+    show (decodeSpec P o .full g _ stop).1.st.unkM = _
+    rw [e, (hfin _).1]; rfl
+  have e2 : out.st.unkF = st'.unkF := by
+    show (decodeSpec P o .full g _ stop).1.st.unkF = _
+    rw [e, (hfin _).2]; rfl
+  refine ⟨fun n => ?_, fun key => ?_⟩
+  · rw [e1, hm]
+    unfold bumpAll
+    rw [bump_counts, lookup_nil, Nat.zero_add]
+  · rw [e2, hf]
+    unfold bumpAll
+    rw [bump_counts, lookup_nil, Nat.zero_add]
+
+/-- what one record contributes, spelled out: a data record counts its message number iff the
+    definition live for its local type names a message the profile does not know, and counts
+    (message, field) for each of its fields the profile does not list when it does know the message -/
+example (P : Profile) (defs : List (Option DefMsg)) (l : Nat) (fs dev : List Bytes) (dm : DefMsg)
+    (h : defs.getD (l % 16) none = some dm) :
+    unkMOf P defs (.data l fs dev) = (if P.known dm.global then [] else [dm.global]) ∧
+    unkFOf P defs (.data l fs dev) = (if P.known dm.global then unkFRec P dm dm.fields fs else []) := by
+  simp only [unkMOf, unkFOf, itemLocal, itemRaws, h, and_self]
 
 end Fit.Props.C16
